@@ -109,13 +109,15 @@ def involved(it, op):
     elif o == "mk_feature":
         add(it.pick(op.get("on", "tag"), op["t"]))
     elif o in ("mk_dim", "set_dim", "dim_link", "del_dims", "write", "append", "resize"):
-        add(it.pick("array", op["da"], (lambda a: a.info.get("dims")) if o in ("set_dim", "dim_link") else None))
-        if o in ("set_dim",):
-            da = it.pick("array", op["da"], lambda a: a.info.get("dims"))
+        if o == "set_dim":
+            da, di = it.resolve_set_dim(op)
+            add(da)
             if da is not None:
-                d = da.info["dims"][op.get("dim", 0) % len(da.info["dims"])]
+                d = da.info["dims"][di]
                 if d.get("link") not in (None, "dangling"):
                     add(d["link"])
+        else:
+            add(it.pick("array", op["da"], (lambda a: a.info.get("dims")) if o == "dim_link" else None))
     elif o in ("set_pos", "clear_ext"):
         add(it.pick("mtag", op["t"]))
     elif o == "sec_link":
